@@ -503,4 +503,4 @@ MANIFEST = {
     'design_ref': 'DESIGN.md 3/C10',
 }
 MANIFEST['note'] += (' Also decided here (necessary conditions shared between properties or added after the independent '
-                     'change rounds, DESIGN.md 8.7): endpoints of the successor IKE_SA (from C01), kernel teardown (both halves, tolerant delete_sa).')
+                     'change rounds, DESIGN.md 8.7): endpoints of the successor IKE_SA (from C01), kernel teardown (both halves, tolerant delete_sa). Rounds 7-8: netlink refusal surfaces as NetlinkError and NEWSA field orientation (from C14); each half deleted unconditionally; tracked before installed.')
